@@ -1650,7 +1650,7 @@ impl From<OutboundIn> for BytesMut {
         }
     }
 
-//@@ octo-squirrel-server/src/server/shadowsocks.rs:323-328  mod tcp / struct PayloadCodec  sha=0a0deb8ebe3d5147
+//@@ octo-squirrel-server/src/server/shadowsocks.rs:338-343  mod tcp / struct PayloadCodec  sha=0a0deb8ebe3d5147
 pub struct sssrv__PayloadCodec<const N: usize> {
         context: Arc<Context<N>>,
         session: Session<N>,
@@ -1658,13 +1658,13 @@ pub struct sssrv__PayloadCodec<const N: usize> {
         state: sssrv__State,
     }
 
-//@@ octo-squirrel-server/src/server/shadowsocks.rs:330-333  mod tcp / enum State  sha=d8ea95c44e9c2239
+//@@ octo-squirrel-server/src/server/shadowsocks.rs:345-348  mod tcp / enum State  sha=d8ea95c44e9c2239
 enum sssrv__State {
         Header,
         Body,
     }
 
-//@@ octo-squirrel-server/src/server/shadowsocks.rs:335-340  mod tcp / impl PayloadCodec  sha=f3c70b3003054fc0
+//@@ octo-squirrel-server/src/server/shadowsocks.rs:350-355  mod tcp / impl PayloadCodec  sha=f3c70b3003054fc0
 impl<const N: usize> sssrv__PayloadCodec<N> {
         fn new(context: Arc<Context<N>>, mode: Mode, address: Option<Address>) -> Self {
             let session = Session::new(mode, Identity::default(), address);
@@ -1672,7 +1672,7 @@ impl<const N: usize> sssrv__PayloadCodec<N> {
         }
     }
 
-//@@ octo-squirrel-server/src/server/shadowsocks.rs:342-348  mod tcp / impl Encoder for PayloadCodec  sha=b2d35db0ddf93f3b
+//@@ octo-squirrel-server/src/server/shadowsocks.rs:357-363  mod tcp / impl Encoder for PayloadCodec  sha=b2d35db0ddf93f3b
 impl<const N: usize> sssrv__PayloadCodec<N> {
 
         fn encode(&mut self, item: OutboundIn, dst: &mut BytesMut) -> Result<()> {
@@ -1680,7 +1680,7 @@ impl<const N: usize> sssrv__PayloadCodec<N> {
         }
     }
 
-//@@ octo-squirrel-server/src/server/shadowsocks.rs:350-374  mod tcp / impl Decoder for PayloadCodec  sha=55359f5fea8781a0
+//@@ octo-squirrel-server/src/server/shadowsocks.rs:365-389  mod tcp / impl Decoder for PayloadCodec  sha=55359f5fea8781a0
 impl<const N: usize> sssrv__PayloadCodec<N> {
 
         fn decode(&mut self, src: &mut BytesMut, Tracked(vcache): Tracked<&mut SaltCache>) -> Result<Option<InboundIn>> {
@@ -1879,11 +1879,11 @@ impl<const N: usize> Client<'_, N> {
         }
     }
 
-//@@ octo-squirrel-server/src/server/shadowsocks.rs:300-301  mod tcp / struct ServerContext  sha=e2f8b9f4fe8a2fbd
+//@@ octo-squirrel-server/src/server/shadowsocks.rs:315-316  mod tcp / struct ServerContext  sha=e2f8b9f4fe8a2fbd
 #[derive(Clone)]
     pub struct ServerContext<const N: usize>(Arc<Context<N>>);
 
-//@@ octo-squirrel-server/src/server/shadowsocks.rs:303-315  mod tcp / impl ServerContext  sha=8a129de5264a3aff
+//@@ octo-squirrel-server/src/server/shadowsocks.rs:318-330  mod tcp / impl ServerContext  sha=8a129de5264a3aff
 impl<const N: usize> ServerContext<N> {
         fn init(config: &ServerConfig<SslConfig>, user_manager: Arc<ServerUserManager<N>>) -> Result<Self> {
             let kind = config.cipher;
@@ -1897,3 +1897,87 @@ impl<const N: usize> ServerContext<N> {
             Ok(Self(context))
         }
     }
+
+//@@ octo-squirrel-server/src/server/shadowsocks.rs:190-199  struct UdpAssociateContext  sha=78838acd7ad7e4db
+struct UdpAssociateContext<const N: usize> {
+    client_session_id: u64,
+    client_session_filter: PacketWindowFilter,
+    client_addr: SocketAddr,
+    inbound: Sender<(BytesMut, Address, SocketAddr, udp__Session<N>)>,
+    outbound: UdpSocket,
+    server_session_id: u64,
+    server_packet_id: u64,
+    user: Option<Arc<ServerUser<N>>>,
+}
+
+//@@ octo-squirrel-server/src/server/shadowsocks.rs:201-291  impl UdpAssociateContext {fn relay,fn validate_packet_id}  sha=9b98a3caaec76dc1
+impl<const N: usize> UdpAssociateContext<N> {
+
+    fn relay(&mut self, mut receiver: Receiver<(BytesMut, Address, udp__Session<N>)>, Tracked(vlog): Tracked<&mut AssocLog>) {
+        let mut buf = [0; 0x10000];
+        loop {
+            match verif_select(2) {
+                0 => { let peer_msg = self.outbound.recv_from(&mut buf, Tracked(vlog)); {
+                    match peer_msg {
+                        Ok((len, peer_addr)) => {
+                            let content = BytesMut::from(&buf[..len]);
+                            self.server_packet_id = match self.server_packet_id.checked_add(1) {
+                                Some(id) => id,
+                                None => {
+                                    /*R2*/
+                                    break;
+                                }
+                            };
+                            let session = udp__Session::new(
+                                self.client_session_id,
+                                self.server_session_id,
+                                self.server_packet_id,
+                                self.user.clone(),
+                            );
+                            /*R2*/
+                            if let Err(e) = self.inbound.send((content, peer_addr.into(), self.client_addr, session), Tracked(vlog)) {
+                                /*R2*/
+                            }
+                        },
+                        Err(e) => {
+                            /*R2*/
+                            break;
+                        }
+                    }
+                } }
+                _ => { let client_msg = receiver.recv(Tracked(vlog)); {
+                    match client_msg {
+                        Some((content, peer_addr, session)) => {
+                            /*R2*/
+                            let resolved_addr = match peer_addr.to_socket_addr() {
+                                Ok(addr) => addr,
+                                Err(e) => {
+                                    /*R2*/
+                                    break;
+                                },
+                            };
+                            if !self.validate_packet_id(session.packet_id) {
+                                // a duplicate or stale packet is dropped; the session goes on
+                                /*R2*/
+                                continue;
+                            }
+                            self.user = session.user.clone();
+                            if let Err(e) = self.outbound.send_to(&content, resolved_addr, Tracked(vlog)) {
+                                /*R2*/
+                                break;
+                            }
+                        }
+                        None => {
+                            /*R2*/
+                            break;
+                        }
+                    }
+                } }
+            }
+        }
+    }
+
+    fn validate_packet_id(&mut self, packet_id: u64) -> bool {
+        self.client_session_filter.validate_packet_id(packet_id, u64::MAX)
+    }
+}
